@@ -333,6 +333,27 @@ func (x *Explorer) define(in ssa.Instruction, st *State) {
 		st.alias[v.Name()] = k
 	}
 	switch i := in.(type) {
+	case *ssa.Alloc:
+		// a fresh variable holds the zero value
+		if pt, ok := i.Type().Underlying().(*types.Pointer); ok {
+			z := ""
+			switch e := pt.Elem().Underlying().(type) {
+			case *types.Basic:
+				switch {
+				case e.Info()&types.IsBoolean != 0:
+					z = "c:false"
+				case e.Info()&types.IsString != 0:
+					z = `c:""`
+				case e.Info()&types.IsNumeric != 0:
+					z = "c:0"
+				}
+			case *types.Pointer, *types.Interface, *types.Map, *types.Slice, *types.Chan, *types.Signature:
+				z = "nil"
+			}
+			if z != "" {
+				st.mem["new:"+i.Name()] = z
+			}
+		}
 	case *ssa.FieldAddr:
 		fv := FieldVar(i.X.Type(), i.Field)
 		n := "?"
@@ -1034,7 +1055,7 @@ func (x *Explorer) enterBlock(b, pred *ssa.BasicBlock, st *State) {
 func (x *Explorer) doStore(s *ssa.Store, st *State) {
 	ka := x.key(s.Addr, st)
 	kv := x.key(s.Val, st)
-	// invalidate loads that may alias
+	// classify the address
 	var field string
 	if fa, ok := s.Addr.(*ssa.FieldAddr); ok {
 		if fv := FieldVar(fa.X.Type(), fa.Field); fv != nil {
@@ -1044,7 +1065,27 @@ func (x *Explorer) doStore(s *ssa.Store, st *State) {
 	_, isAlloc := s.Addr.(*ssa.Alloc)
 	_, isFV := s.Addr.(*ssa.FreeVar)
 	_, isGlobal := s.Addr.(*ssa.Global)
-	st.dropIf(func(k string) bool {
+	// a field or element of a local object: only that object is affected
+	localRoot := ""
+	if !isAlloc {
+		var a ssa.Value = s.Addr
+		for {
+			switch y := a.(type) {
+			case *ssa.FieldAddr:
+				a = y.X
+				continue
+			case *ssa.IndexAddr:
+				a = y.X
+				continue
+			case *ssa.Alloc:
+				if y.Parent() == x.Fn {
+					localRoot = y.Name()
+				}
+			}
+			break
+		}
+	}
+	affected := func(k string) bool {
 		if !strings.ContainsAny(k, "*^") {
 			return false
 		}
@@ -1054,16 +1095,34 @@ func (x *Explorer) doStore(s *ssa.Store, st *State) {
 		if isAlloc || isFV || isGlobal {
 			return false
 		}
+		if localRoot != "" {
+			return mentions(k, localRoot)
+		}
 		if field != "" {
 			return mentions(k, field[1:]) && strings.Contains(k, field)
 		}
-		return true // store through an arbitrary pointer / index
-	})
+		// store through an arbitrary pointer / index: everything loaded may
+		// have changed, except package variables of other packages
+		if strings.Contains(k, "*") {
+			return true
+		}
+		rest := strings.ReplaceAll(k, "^g:", "")
+		return strings.Contains(rest, "^")
+	}
+	st.dropIf(affected)
 	for a := range st.mem {
 		if a == ka {
 			continue
 		}
 		if isAlloc || isFV || isGlobal {
+			continue
+		}
+		if localRoot != "" {
+			if mentions(a, localRoot) && a != "new:"+localRoot {
+				if field == "" || strings.HasSuffix(a, field) {
+					delete(st.mem, a)
+				}
+			}
 			continue
 		}
 		if field != "" {
